@@ -239,6 +239,7 @@ class SpanUpdater:
 
     def update(self, offset, bisect):
         """Shift an offset left or right."""
-        index = bisect(self.offsets, offset) - 1
+        # offset 0 with bisect_left finds no range to its left: use the first
+        index = max(bisect(self.offsets, offset) - 1, 0)
         updater = self.updaters[index]
         return updater(offset)
